@@ -165,7 +165,7 @@ var ocspAlphabet = []string{
 	"good-inv-after", "unknown-inv-after", "revoked-delegate-noeku-inv-after",
 	"good-critext", "good-nocheck",
 	"err-unauthorized", "err-malformed", "err-internal", "err-trylater", "err-sigrequired",
-	"http-404", "http-500", "transport-error", "timeout", "empty-body", "garbage", "truncated", "oversize", "body-read-error",
+	"http-404", "http-500", "http-201-good", "http-203-good", "http-206-good", "http-302-good", "transport-error", "timeout", "empty-body", "garbage", "truncated", "oversize", "body-read-error",
 }
 
 // representative classes for the all-sequences sweep of the quick tier
@@ -283,6 +283,11 @@ func (c *ocspCtx) behaviour(label string) *httpBehaviour {
 		return &httpBehaviour{err: errors.New("connection reset by peer")}
 	case "timeout":
 		return &httpBehaviour{timeout: true}
+	case "http-201-good", "http-203-good", "http-206-good", "http-302-good":
+		// a perfectly good response under a status other than 200: no answer
+		var st int
+		fmt.Sscanf(label, "http-%d-good", &st)
+		return &httpBehaviour{status: st, body: buildOCSP(c.issuer, spec)}
 	case "empty-body":
 		return &httpBehaviour{body: []byte{}}
 	case "garbage":
